@@ -69,7 +69,7 @@ class Location(object):
         >>> Location(StringIO("some text"), has_column=True)
         <io> (1;1)
         """
-        assert file_path
+        assert file_path is not None
         if isinstance(file_path, str):
             self.file_path = file_path
         else:
